@@ -177,6 +177,8 @@ def scopeAfter : List String → Query → Option (List String)
 
 def WellScoped (q : Query) : Prop := (scopeAfter [] q).isSome = true
 
+instance (q : Query) : Decidable (WellScoped q) := by unfold WellScoped; infer_instance
+
 /-! ### queries -/
 
 inductive Result
